@@ -147,6 +147,19 @@ def nplike_ok(env, t, obj, exp, what):
             continue
         d = V.diff(got, exp) if len(exp) and all(int(s) > 0 for s in obj._shape) else None
         ok = env.check(d is None and shape_ok, f"{what} to_nplike()/to_nparray() return the array's values indexed like the array ({meth}: {d})") and ok
+        if not env.symbolic and meth == "to_nplike" and arr.size > 0 and d is None:
+            # real buffers only (the storage model hands out copies): a typed array view ALIASES the buffer bytes
+            idx0 = tuple(0 for _ in arr.shape)
+            old = arr[idx0]
+            new = other_scalar(t[1], old.item(), 1)
+            try:
+                arr[idx0] = new
+                seen = obj[idx0 if len(idx0) > 1 else idx0[0]]
+                ok = env.check(V.same(V.readback(t[1], seen), V.expected(t[1], new)), f"{what} a write through the typed array view of to_nplike() reaches the buffer (the view aliases the bytes it covers), whatever the object's offset") and ok
+                arr[idx0] = old
+                obj[idx0 if len(idx0) > 1 else idx0[0]] = old
+            except ValueError:
+                pass  # read-only views are not claimed
     return ok
 
 
@@ -964,6 +977,39 @@ def sc_c11(env, t, v, cfg):
                 expect_error(env, B, lambda: V.set_at(t, obj, path, nv), f"updating the array at {path} (shape {dims}) with a value of length {len(nv)}")
             n += 1
             if n >= cfg.get("max_cases", 3):
+                break
+    elif misuse == "array_shape_instance":
+        # another xobject of the SAME array class that takes the same number of bytes but has another shape
+        # or length (2x3 for 3x2; Int8[:] of 3 for 8 items: both fill the same slots) is not a fitting value
+        for path, ct, cv in V.compounds(t, v):
+            if ct[0] != "array" or ct[1][0] != "scalar" or not any(d is None for d in ct[2]):
+                continue
+            if path and (V.type_at(t, v, path)[0][0] in ("ref", "uref") or behind_ref(t, v, path)):
+                continue
+            ccls = tg.build(ct)
+            dims = V.dims_of(ct, cv)
+            dt = V.NPT[ct[1][1]]
+            size0 = ccls._inspect_args(np.zeros(dims, dtype=dt)).size
+            dyn = [k for k, d in enumerate(ct[2]) if d is None]
+            cand = None
+            for nd_ in itertools.product(range(0, 9), repeat=len(dyn)):
+                nd2 = list(dims)
+                for k, x in zip(dyn, nd_):
+                    nd2[k] = x
+                if nd2 != list(dims) and ccls._inspect_args(np.zeros(nd2, dtype=dt)).size == size0:
+                    cand = nd2
+                    if int(np.prod(nd2)) > 0:
+                        break
+            if cand is None:
+                continue
+            n_items = int(np.prod(cand))
+            other = ccls(((np.arange(n_items) % 50) + 60).astype(dt).reshape(cand), _buffer=B.buf)
+            if path:
+                expect_error(env, B, lambda: V.set_at(t, obj, path, other), f"assigning an instance of the same array class with the same byte size but shape {cand} to the array of shape {dims} at {path}")
+            else:
+                expect_error(env, B, lambda: obj._update(other), f"updating the array of shape {dims} with an instance of its class that has the same byte size but shape {cand}")
+            n += 1
+            if n >= cfg.get("max_cases", 2):
                 break
     elif misuse == "bigger_items":
         for path, ct, cv in V.compounds(t, v):
